@@ -233,13 +233,32 @@ func onePerShape(all, have []c07.Addr) []c07.Addr {
 }
 
 // writeSplit feeds the parts to a fresh LogScrubber and returns what reached the sink.
-func writeSplit(parts []string) (rec *recorder, badReturn string) {
+func writeSplit(parts []string) (rec *recorder, badReturn string) { return writeSplitMode(parts, 0) }
+
+// writeSplitMode: how the caller treats the slice it passed once Write has returned (io.Writer must not
+// retain it): 0 a fresh slice per call, never touched again; 1 one scratch buffer reused for every
+// chunk, as io.CopyBuffer and bufio.Writer do; 2 the slice is overwritten with digits right after the call.
+func writeSplitMode(parts []string, mode int) (rec *recorder, badReturn string) {
 	rec = &recorder{}
 	ls := &LogScrubber{Output: rec}
+	scratch := make([]byte, 0, 256)
 	for _, p := range parts {
-		n, err := ls.Write([]byte(p))
+		var b []byte
+		switch mode {
+		case 1:
+			scratch = append(scratch[:0], p...)
+			b = scratch
+		default:
+			b = []byte(p)
+		}
+		n, err := ls.Write(b)
 		if n != len(p) || err != nil {
 			badReturn = fmt.Sprintf("Write(%q) = %d, %v", p, n, err)
+		}
+		if mode == 2 {
+			for i := range b {
+				b[i] = '7'
+			}
 		}
 	}
 	return
@@ -273,10 +292,11 @@ func checkSplits(r *en.R, fails *c07.Fails, input string) {
 		fails.Add("writer:one-write-per-line-differs-from-scrub-of-each-line", fmt.Sprintf("writes %q reached the sink as %q; Scrub of each complete line gives %q", refParts, ref, want), input, nil)
 	}
 	n := len(input)
-	check := func(parts []string) {
-		rec, bad := writeSplit(parts)
-		r.Case("w|"+strings.Join(parts, "\x00"), true)
-		in := map[string]interface{}{"writes": parts}
+	var check func(parts []string)
+	checkMode := func(parts []string, mode int) {
+		rec, bad := writeSplitMode(parts, mode)
+		r.Case(fmt.Sprintf("w%d|", mode)+strings.Join(parts, "\x00"), true)
+		in := map[string]interface{}{"writes": parts, "caller_buffer": []string{"fresh slice per call", "one scratch buffer reused for every chunk", "overwritten with digits after the call"}[mode]}
 		if bad != "" {
 			fails.Add("writer:wrong-return-value", bad, input, in)
 		}
@@ -297,7 +317,20 @@ func checkSplits(r *en.R, fails *c07.Fails, input string) {
 				sig = "split-dependence:several-lines-completed-by-one-write"
 			}
 		}
-		fails.Add(sig, fmt.Sprintf("writes %q reached the sink as %q; one Write per line gives %q", parts, got, ref), input, in)
+		if mode != 0 {
+			sig = "split-dependence:caller-buffer-retained"
+			if fresh, _ := writeSplitMode(parts, 0); fresh.all() != ref {
+				return // the same split differs with fresh slices too: reported by mode 0
+			}
+		}
+		fails.Add(sig, fmt.Sprintf("writes %q (%s) reached the sink as %q; one Write per line gives %q", parts, in["caller_buffer"], got, ref), input, in)
+	}
+	check = func(parts []string) {
+		checkMode(parts, 0)
+		if len(parts) > 1 {
+			checkMode(parts, 1)
+			checkMode(parts, 2)
+		}
 	}
 	check([]string{input})
 	for c1 := 1; c1 < n; c1++ {
